@@ -83,6 +83,40 @@ func (d *driver) failRedisCommand(k int) *bool {
 	return hit
 }
 
+// holdAfterRedisCommand arms the command hook: after k commands of the running store call the next one parks as a gate of
+// the check (kind "rediscmd"); commands of other checks pass. Returns the trace position at which the call parked.
+func (d *driver) holdAfterRedisCommand(c *checkRun, k int) *int {
+	lin := new(int)
+	n := 0
+	armed := true
+	var mu sync.Mutex
+	for _, m := range d.env.mr {
+		m.Server().SetPreHook(func(p *mrserver.Peer, cmd string, args ...string) bool {
+			mu.Lock()
+			if !armed {
+				mu.Unlock()
+				return false
+			}
+			n++
+			if n <= k {
+				mu.Unlock()
+				return false
+			}
+			armed = false
+			mu.Unlock()
+			d.rec.mu.Lock()
+			*lin = d.rec.n
+			d.rec.mu.Unlock()
+			d.rec.emit(map[string]any{"ev": "noop", "c": "hold:" + c.id})
+			g := &gate{check: c, kind: "rediscmd", release: make(chan Directive)}
+			d.arrived <- g
+			<-g.release
+			return false
+		})
+	}
+	return lin
+}
+
 func (d *driver) clearRedisHook() {
 	for _, m := range d.env.mr {
 		m.Server().SetPreHook(nil)
